@@ -130,6 +130,8 @@ type v1Persist struct {
 }
 
 // readDisk decrypts the file the documented way, independently of package db.
+var reopenCount int
+
 // lastClear is the clear persist document most recently decrypted by readDisk.
 var lastClear []byte
 
@@ -375,7 +377,12 @@ func (w *dbWorld) exec(op dbOp) (res string) {
 		}
 		return fmt.Sprintf("value:%s:%d", hb(sv.Value), sv.Version)
 	case "put":
-		nv, err := w.d.Put(c, op.name, op.val)
+		// the caller's buffer is the caller's: it is overwritten as soon as Put returns
+		buf := append(make([]byte, 0, len(op.val)+8), op.val...)
+		nv, err := w.d.Put(c, op.name, buf)
+		for i := range buf {
+			buf[i] ^= 0xa5
+		}
 		if err != nil {
 			return classify(err)
 		}
@@ -439,7 +446,7 @@ func (w *dbWorld) entries() (string, string, error) {
 	return strings.Join(parts, ";"), before, nil
 }
 
-var dbNames = []string{"a", "b", "dev/x", "_internal/k", "", "a\nb", "é/π"}
+var dbNames = []string{"a", "b", "dev/x", "_internal/k", "", "a\nb", "é/π", "_internal/a", "_internal/dev/x", "dev/../a"}
 var dbActs = []string{"get", "info", "put", "activate", "delete", "bogus"}
 var dbPats = []string{"*", "a", "b", "dev/*", "*x", "a*", "", "_internal/*", "zz", "*/*", "a*a", "dev/*/x", "*b*"}
 
@@ -479,7 +486,9 @@ func (w *dbWorld) genOp(r *rand.Rand, sh *shadow, profile string) dbOp {
 	if len(w.callers) > 1 && r.Intn(3) != 0 {
 		op.caller = r.Intn(len(w.callers))
 	}
-	nameW := []string{"a", "a", "a", "b", "b", "dev/x", "_internal/k", "", "a\nb", "é/π"}
+	// reserved-prefix names whose remainder is an ordinary secret's name: acting on the one must
+	// never touch the other
+	nameW := []string{"a", "a", "a", "b", "b", "dev/x", "_internal/k", "", "a\nb", "é/π", "_internal/a", "_internal/b", "_internal/dev/x"}
 	op.name = pick(r, nameW)
 	kinds := []string{"put", "put", "put", "put", "activate", "activate", "delver", "delver", "delete", "get", "getver", "getcond", "getcond", "info", "list"}
 	op.kind = pick(r, kinds)
@@ -669,7 +678,10 @@ func (w *dbWorld) reopenObs(kek tink.AEAD) string {
 	if err != nil {
 		return "reopen=ERR:" + hx(err.Error())
 	}
-	os.WriteFile(p2, bs, 0600)
+	// a copy restored by hand may have any mode: Open must not touch it either way
+	reopenCount++
+	os.WriteFile(p2, bs, []os.FileMode{0600, 0644, 0640, 0400}[reopenCount%4])
+	os.Chmod(p2, []os.FileMode{0600, 0644, 0640, 0400}[reopenCount%4])
 	sk := &sink{dbPath: p2, observer: true}
 	d2, err := db.Open(p2, kek, audit.New(sk))
 	if err != nil {
